@@ -118,13 +118,18 @@ def r1_validate_before_mutate(run, w):
          fi=fn.fi)
   # (2) empty require
   v_allow = byopt.get("allow_empty_require", (None,))[0]
+  cands = {}        # raising branches that are about a check, whether or not they are adequate
   for n in ifs:
     t = n.stmt.test
-    if isinstance(t, ast.BoolOp) and isinstance(t.op, ast.And) and len(t.values) == 2 and \
-        sorted(text(x) for x in t.values) == sorted(["not " + p_req, "not %s" % v_allow]):
-      checks["empty"] = (n, None)
+    mentioned = {x.id for x in ast.walk(t) if isinstance(x, ast.Name)}
+    if v_allow in mentioned:
+      cands["empty"] = n
+      if isinstance(t, ast.BoolOp) and isinstance(t.op, ast.And) and len(t.values) == 2 and \
+          sorted(text(x) for x in t.values) == sorted(["not " + p_req, "not %s" % v_allow]):
+        checks["empty"] = (n, None)
   run.ob(R1, fn.qualname, "if not require and not allow_empty_require: raise",
-         "an empty `require` is rejected unless explicitly allowed", "empty" in checks, fi=fn.fi)
+         "an empty `require` is rejected unless explicitly allowed (and on no other condition)",
+         "empty" in checks, fi=fn.fi)
   # (3) equal lengths over both dicts
   from_req = lambda x: isinstance(x, ast.Name) and x.id == p_req
   from_vals = lambda x: isinstance(x, ast.Name) and x.id == p_vals
@@ -136,6 +141,7 @@ def r1_validate_before_mutate(run, w):
         H.const_value(t.comparators[0]) == (True, 1) and \
         isinstance(t.ops[0], (ast.NotEq, ast.Gt)):
       uniq = t.left.args[0]
+      cands["lengths"] = n
       d = H.single_def(fn, uniq.id)
       is_set = isinstance(d, ast.Call) and dotted(d.func) == "set" and len(d.args) == 1
       both = du.flows_from(from_req, uniq) and du.flows_from(from_vals, uniq) and \
@@ -172,14 +178,17 @@ def r1_validate_before_mutate(run, w):
         isinstance(d.args[0], ast.Call) and dotted(d.args[0].func) == "set" and \
         isinstance(d.args[0].args[0], ast.Call) and dotted(d.args[0].args[0].func) == "zip" and \
         du.flows_from(from_req, d)
-    is_length = "lengths" in checks and du.flows_from(
-      lambda x: isinstance(x, ast.Name) and x.id == checks["lengths"][1], ln)
+    is_length = du.flows_from(is_len, ln) and du.flows_from(from_req, ln)
+    if counts_keys:
+      cands["unique"] = n
     if counts_keys and is_length:
       checks["unique"] = (n, None)
   run.ob(R1, fn.qualname, "if require and len(set(zip(*<require values>))) < length: raise",
          "repeated `require` keys are rejected", "unique" in checks, fi=fn.fi)
-  missing = [k for k in ("on_many", "empty", "lengths", "unique") if k not in checks]
-  unclassified = [n for n in ifs if n.id not in {c[0].id for c in checks.values()}]
+  if "on_many" in checks:
+    cands["on_many"] = checks["on_many"][0]
+  missing = [k for k in ("on_many", "empty", "lengths", "unique") if k not in cands]
+  unclassified = [n for n in ifs if n.id not in {c.id for c in cands.values()}]
   if missing and unclassified:
     raise AnalysisError("BulkAddOrUpdateRecord: check(s) %s not recognised while %d raising "
                         "branch(es) could not be classified (e.g. `%s`)"
